@@ -422,10 +422,8 @@ fn eval_tree(t: &Tree, e: &DocEnv) -> Option<u64> {
                     if rv == 0 {
                         return None;
                     }
-                    if (lv | rv) >> 63 != 0 {
-                        // the documentation does not say whether division is signed
-                        e.abstain.set(true);
-                    }
+                    // values are unsigned 64-bit words ("64-bit wrapping"): `/` and `%` are the
+                    // unsigned operations on them
                     Some(if *o == b'/' { lv / rv } else { lv % rv })
                 }
                 b'@' => {
@@ -515,7 +513,9 @@ fn doc_parse_line<'a>(line: &'a str, into: &mut Vec<(DReg, Vec<&'a str>)>) -> Re
 }
 
 /// What the documentation prescribes for this case. `Err(why)`: the oracle abstains.
-type DocState = Option<(u64, u64, Vec<(String, u64)>)>;
+/// (cfa, ra, registers as the property prescribes, registers when a value that does not fit the
+/// register is left alone as the implementation does — the known finding)
+type DocState = Option<(u64, u64, Vec<(String, u64)>, Vec<(String, u64)>)>;
 
 fn doc_expect(c: &Case, mock0: &Mock) -> Result<DocState, &'static str> {
     if c.instr < c.base {
@@ -559,24 +559,35 @@ fn doc_expect(c: &Case, mock0: &Mock) -> Result<DocState, &'static str> {
         return Ok(None);
     }
     let mut regs: Vec<(String, u64)> = c.fwd.clone();
-    let mut touched: Vec<&str> = vec![];
-    for (r, e) in &rules {
-        let DReg::Other(name) = r else { continue };
+    let mut lenient: Vec<(String, u64)> = c.fwd.clone();
+    // Two labels may denote one register through an alias (`fp:` and `x29:`): the rules are then
+    // applied in the order of their names (walker.rs:526-535, "make it the order of the names").
+    let mut named: Vec<(&str, &Vec<&str>)> = rules
+        .iter()
+        .filter_map(|(r, e)| match r {
+            DReg::Other(n) => Some((n.as_str(), e)),
+            _ => None,
+        })
+        .collect();
+    named.sort_by(|a, b| a.0.as_bytes().cmp(b.0.as_bytes()));
+    for (name, e) in named {
         let Some(m) = mock0.memo(name) else { continue }; // a register the walker does not have
-        if touched.contains(&m) {
-            return Err("two-labels-one-register");
-        }
-        touched.push(m);
         match doc_eval(e, mock0, Some(cfa)).map_err(|_| "undocumented-token")? {
             Some(v) if mock0.fits(v) => {
                 regs.retain(|(n, _)| n != m);
                 regs.push((m.to_string(), v));
+                lenient.retain(|(n, _)| n != m);
+                lenient.push((m.to_string(), v));
             }
             // a value the register cannot hold is not a value of the register: unknown
-            _ => regs.retain(|(n, _)| n != m),
+            Some(_) => regs.retain(|(n, _)| n != m),
+            None => {
+                regs.retain(|(n, _)| n != m);
+                lenient.retain(|(n, _)| n != m);
+            }
         }
     }
-    Ok(Some((cfa, ra, regs)))
+    Ok(Some((cfa, ra, regs, lenient)))
 }
 
 // ------------------------------------------------------------------------------------ generator
@@ -1129,6 +1140,24 @@ impl Engine for Cfi {
         let mut mock = Mock::new(&c);
         let r = catch(|| sym.walk_frame(&module, &mut mock));
         let pristine = Mock::new(&c);
+        // the result may not depend on the iteration order of the rule map (a fresh map, with a
+        // fresh hash seed, is built by every call)
+        if let Ok(first) = &r {
+            let first_state = (first.is_some(), mock.cfa, mock.ra, mock.regs.clone());
+            for _ in 0..3 {
+                let mut again = Mock::new(&c);
+                if let Ok(r2) = catch(|| sym.walk_frame(&module, &mut again)) {
+                    let st = (r2.is_some(), again.cfa, again.ra, again.regs.clone());
+                    if r2.is_some() && st != first_state {
+                        res.oracle.push((
+                            "nondeterministic-result".into(),
+                            format!("{} vs {}", show_state(mock.cfa, mock.ra, &mock.regs), show_state(again.cfa, again.ra, &again.regs)),
+                        ));
+                        break;
+                    }
+                }
+            }
+        }
         match r {
             Err(msg) => {
                 res.out = "PANIC".into();
@@ -1175,13 +1204,13 @@ impl Engine for Cfi {
         res.nontrivial = covered && has_op && (res.out != "none" || mock.sets + mock.clears > 0 || applicable > 0);
         // ---- the documented semantics, evaluated independently
         match doc_expect(&c, &pristine).map(|w| match w {
-            None => "none".to_string(),
-            Some((cfa, ra, regs)) => show_state(Some(cfa), Some(ra), &regs),
+            None => ("none".to_string(), "none".to_string()),
+            Some((cfa, ra, regs, len)) => (show_state(Some(cfa), Some(ra), &regs), show_state(Some(cfa), Some(ra), &len)),
         }) {
-            Ok(want) => {
+            Ok((want, lenient)) => {
                 if want != res.out {
                     // a rule whose value does not fit the register: neither set nor marked unknown
-                    let class = if res.out != "none" && want != "none" && stale_forward(&c, &res.out, &want) {
+                    let class = if res.out == lenient {
                         "reg-neither-set-nor-cleared"
                     } else {
                         "differs-from-documented-semantics"
@@ -1274,37 +1303,6 @@ impl Engine for Cfi {
         }
         render(&c)
     }
-}
-
-/// the implementation left a forwarded register valid with the callee's value although the
-/// register has a rule (whose value does not fit the register width)
-fn stale_forward(c: &Case, got: &str, want: &str) -> bool {
-    let regs = |s: &str| -> Vec<(String, String)> {
-        s.split("regs:")
-            .nth(1)
-            .unwrap_or("")
-            .split(',')
-            .filter_map(|p| p.split_once('=').map(|(a, b)| (a.to_string(), b.to_string())))
-            .collect()
-    };
-    let head = |s: &str| s.split(" regs:").next().unwrap_or("").to_string();
-    if head(got) != head(want) {
-        return false;
-    }
-    let (g, w) = (regs(got), regs(want));
-    // every difference is a register present in `got` with its forwarded value and absent in `want`
-    let mut any = false;
-    for (n, v) in &g {
-        if !w.contains(&(n.clone(), v.clone())) {
-            let fwd = c.fwd.iter().find(|(f, _)| f == n).map(|(_, x)| x.to_string());
-            if fwd.as_deref() == Some(v.as_str()) && !w.iter().any(|(m, _)| m == n) {
-                any = true;
-            } else {
-                return false;
-            }
-        }
-    }
-    any && w.iter().all(|p| g.contains(p))
 }
 
 // ------------------------------------------------------------------------------------ walk_stack
@@ -1475,7 +1473,7 @@ fn glue(c: &Case, st: DocState) -> String {
         && c.mem_base.checked_add(c.mem.len() as u64 - 1).is_some()
         && *sp >= c.mem_base
         && *sp - c.mem_base < c.mem.len() as u64;
-    let Some((cfa, mut ra, mut regs)) = st else { return "nocfi".into() };
+    let Some((cfa, mut ra, mut regs, _)) = st else { return "nocfi".into() };
     if !in_stack {
         return "nocfi".into();
     }
@@ -1533,9 +1531,10 @@ fn exec_stack(c: &Case) -> ImplResult {
     // a rule labelled with the stack or instruction pointer itself is outside what the glue model covers
     match doc_expect(c, &pristine) {
         Ok(st) => {
+            let lenient = glue(c, st.clone().map(|(a, b, _, l)| (a, b, l.clone(), l)));
             let want = glue(c, st);
             if want != res.out {
-                let class = if res.out != "nocfi" && want != "nocfi" && stale_forward(c, &res.out, &want) {
+                let class = if res.out == lenient {
                     "reg-neither-set-nor-cleared"
                 } else {
                     "differs-from-documented-semantics"
